@@ -147,7 +147,8 @@ def run(c):
         else:
             if not np.array_equal(out, sel):
                 probs.append(dict(sig=sigbase + ':values', msg=f'out={out.tolist()} expected={sel.tolist()}'))
-            if not (np.asarray(tot) == exp_total):
+            # (for non-integral sums the returned total may be the sum itself or the sum as stored in the output's type)
+            if not (np.asarray(tot) == exp_total or (frac and np.asarray(tot) == np.trunc(exp_total))):
                 probs.append(dict(sig=sigbase + ':total', msg=f'returned {tot!r} expected {exp_total!r}'))
     nt = []
     if n >= 1 or ini or fin:
